@@ -475,6 +475,8 @@ pub fn c01(ctx: &mut Ctx) {
     if !cfg!(miri) {
         history_interference(ctx);
         direct_key_api(ctx);
+        concurrency_probe(ctx, true, false);
+        lib_made_records(ctx);
     }
     wdec(ctx, DecPlan {
         fixed_bases: if q { 48 } else { 96 },
@@ -494,6 +496,8 @@ pub fn c02(ctx: &mut Ctx) {
     let q = ctx.quick();
     if !cfg!(miri) {
         history_interference(ctx);
+        concurrency_probe(ctx, true, false);
+        lib_made_records(ctx);
     }
     wdec(ctx, DecPlan {
         fixed_bases: if q { 96 } else { 200 },
@@ -593,6 +597,7 @@ pub fn c11_decode_part(ctx: &mut Ctx) {
     let q = ctx.quick();
     if !cfg!(miri) {
         direct_key_api(ctx);
+        concurrency_probe(ctx, true, false);
     }
     wdec(ctx, DecPlan {
         fixed_bases: if q { 60 } else { 120 },
@@ -838,6 +843,176 @@ pub fn direct_key_api(ctx: &mut Ctx) {
         go::<LibsecpK>(ctx, Scheme::Secp, label, &content);
         if cfg!(feature = "ed") {
             go::<EdK>(ctx, Scheme::Ed, label & !(1 << 63), &content);
+        }
+    }
+}
+
+/// The same calls made from several threads at once. The library documents no shared state, so every thread
+/// must see exactly what a single thread sees: each concurrent decode outcome goes through the full input
+/// monitors again (RefDecode, authenticity, round trip, node id) and is compared with the sequential outcome
+/// of the same (bytes, key type); each concurrent update script must leave, step by step, the records the
+/// sequential run of the same script left (sequence number, pairs, node id, verify, result kind).
+pub fn concurrency_probe(ctx: &mut Ctx, decodes: bool, scripts: bool) {
+    use crate::hist::{apply_build, apply_op};
+    use crate::keys::*;
+    use crate::model::{BEntry, Signer, Val};
+    use crate::plans::*;
+    if cfg!(miri) {
+        return;
+    }
+    const T: usize = 4;
+    type Summary = (bool, Option<(Vec<u8>, [u8; 32], u64, String)>, String, usize, bool);
+    fn summarise(o: &dec::DecOut) -> Summary {
+        (o.res.is_ok(), o.res.as_ref().ok().map(|x| (x.enc.clone(), x.node_id, x.seq, x.text.clone())), o.res.as_ref().err().cloned().unwrap_or_default(), o.remaining, o.panic.is_some())
+    }
+    fn script(kt: KT, scheme: Scheme, h: &crate::hist::History) -> Vec<String> {
+        macro_rules! go {
+            ($kk:ty) => {{
+                let own = <$kk as KeyKind>::make(scheme, &secret_from(scheme, h.own));
+                let other = <$kk as KeyKind>::make(scheme, &secret_from(scheme, h.other));
+                let mut out = Vec::new();
+                match crate::util::guard(|| apply_build::<<$kk as KeyKind>::K>(&[BEntry::Udp4(5), BEntry::Add(b"x".to_vec(), Val::U8(1))], &own)) {
+                    Ok(Ok(mut e)) => {
+                        for st in &h.steps {
+                            let (s, n) = if st.signer == Signer::Other { (&other, &own) } else { (&own, &other) };
+                            let r = crate::util::guard(|| apply_op(&mut e, &st.op, s, n).map(|_| ()).map_err(|e| format!("{e:?}")));
+                            let c = crate::util::guard(|| (crate::obs::observe_core(&e), e.verify()));
+                            out.push(match (r, c) {
+                                (Ok(r), Ok((c, v))) => format!("{r:?} seq={} id={} pairs={} verify={v}", c.0, crate::util::hex(&c.1), c.3.iter().map(|(k, v)| format!("{}:{}", crate::util::hex(k), crate::util::hex(v))).collect::<Vec<_>>().join(",")),
+                                (r, c) => format!("panic: {:?} / {:?}", r.err(), c.err()),
+                            });
+                        }
+                    }
+                    other => out.push(format!("build: {:?}", other.map(|r| r.map(|_| ())))),
+                }
+                out
+            }};
+        }
+        match kt {
+            KT::K256 => go!(K256K),
+            #[cfg(feature = "libsecp")]
+            KT::Libsecp => go!(LibsecpK),
+            #[cfg(not(feature = "libsecp"))]
+            KT::Libsecp => Vec::new(),
+            KT::Ed => go!(EdK),
+            KT::Comb => go!(CombK),
+            KT::Toy => go!(ToyK),
+        }
+    }
+    let rounds = ctx.vol(if ctx.quick() { 160 } else { 6400 });
+    let ks = kinds();
+    let kts = dec::kts();
+    for round in 0..rounds {
+        if !ctx.mine(round) {
+            continue;
+        }
+        if ctx.expired() {
+            return;
+        }
+        let mut r = rng_for(ctx.seed, &["concurrency"], round);
+        // ---- the work list
+        let mut inputs: Vec<(&'static str, Vec<u8>)> = Vec::new();
+        if decodes {
+            for scheme in [Scheme::Secp, Scheme::Ed, Scheme::Toy] {
+                let key = RefKey::new(scheme, crate::keys::secret_from(scheme, 0x3000 + round));
+                let rec = gen::random_valid(&mut r, &[key]);
+                let good = rec.bytes();
+                let mut forged = good.clone();
+                let n = forged.len();
+                forged[n - 1] ^= 1;
+                inputs.push(("valid", good));
+                inputs.push(("bit-flip", forged));
+                let ms = gen::structural_mutants(&rec, &mut r);
+                for _ in 0..4 {
+                    let (c, m) = &ms[below(&mut r, ms.len() as u64) as usize];
+                    inputs.push((c, m.clone()));
+                }
+            }
+        }
+        let pairs: Vec<(usize, KT)> = (0..inputs.len()).flat_map(|i| kts.iter().map(move |k| (i, *k))).collect();
+        let hs: Vec<(KT, Scheme, crate::hist::History)> = if scripts { ks.iter().map(|(kt, s)| (*kt, *s, random_history(&mut r, *s, 8))).filter(|(_, _, h)| h.steps.iter().all(|s| s.signer != Signer::Alt)).collect() } else { Vec::new() };
+        // ---- sequential reference
+        ctx.trace_case(|| json!({"kind": "concurrency-round", "round": round, "inputs": inputs.iter().map(|(_, b)| crate::util::hex(b)).collect::<Vec<_>>()}));
+        let seq_dec: Vec<Summary> = pairs.iter().map(|(i, kt)| summarise(&dec::decode_kt(*kt, &inputs[*i].1))).collect();
+        let seq_scr: Vec<Vec<String>> = hs.iter().map(|(kt, s, h)| script(*kt, *s, h)).collect();
+        // ---- the same work on T threads at once, each in another order
+        let results: Vec<(Vec<(usize, dec::DecOut)>, Vec<(usize, Vec<String>)>)> = std::thread::scope(|sc| {
+            let handles: Vec<_> = (0..T)
+                .map(|t| {
+                    let (pairs, inputs, hs) = (&pairs, &inputs, &hs);
+                    sc.spawn(move || {
+                        let mut order: Vec<usize> = (0..pairs.len()).collect();
+                        if !order.is_empty() {
+                            let by = t * pairs.len() / T;
+                            order.rotate_left(by);
+                        }
+                        if t % 2 == 1 {
+                            order.reverse();
+                        }
+                        let mut horder: Vec<usize> = (0..hs.len()).collect();
+                        if !horder.is_empty() {
+                            horder.rotate_left(t % hs.len());
+                        }
+                        let mut d = Vec::new();
+                        let mut s = Vec::new();
+                        let mut hi = horder.into_iter();
+                        for (n, p) in order.into_iter().enumerate() {
+                            let (i, kt) = pairs[p];
+                            d.push((p, dec::decode_kt(kt, &inputs[i].1)));
+                            // updates interleaved with the decodes
+                            if n % 8 == 3 {
+                                if let Some(h) = hi.next() {
+                                    s.push((h, script(hs[h].0, hs[h].1, &hs[h].2)));
+                                }
+                            }
+                        }
+                        for h in hi {
+                            s.push((h, script(hs[h].0, hs[h].1, &hs[h].2)));
+                        }
+                        (d, s)
+                    })
+                })
+                .collect();
+            handles.into_iter().map(|h| h.join().unwrap_or_default()).collect()
+        });
+        ctx.trace_end();
+        // ---- judge
+        for (t, (d, s)) in results.iter().enumerate() {
+            for (p, out) in d {
+                let (i, kt) = pairs[*p];
+                let (class, bytes) = (&inputs[i].0, &inputs[i].1);
+                ctx.count("evaluations");
+                ctx.count("concurrent-decodes");
+                crate::decmon::judge_outcome(ctx, class, kt, bytes, out);
+                if summarise(out) != seq_dec[*p] {
+                    for prop in ["C02", "C13", "C01", "C11"] {
+                        ctx.violate(prop, "outcome-differs-between-threads", &format!("{class}/{}", kt.name()), || {
+                            format!("{}: decoding the same bytes gave another outcome on thread {t} of {T} concurrent ones than sequentially: {:?} vs {:?}", kt.name(), summarise(out).2, seq_dec[*p].2)
+                        }, || json!({"kind": "input", "class": class, "entry": "decode", "kt": kt.name(), "hex": crate::util::hex(bytes), "note": "concurrent threads"}));
+                    }
+                }
+            }
+            for (h, trace) in s {
+                ctx.count("evaluations");
+                ctx.count("concurrent-scripts");
+                ctx.add("concurrent-steps", trace.len() as u64);
+                if *trace != seq_scr[*h] {
+                    let at = trace.iter().zip(seq_scr[*h].iter()).position(|(a, b)| a != b).unwrap_or(0);
+                    let panicked = trace.iter().any(|l| l.starts_with("panic"));
+                    for prop in ["C05", "C06", "C08", "C07", "C03"] {
+                        if prop == "C03" && !panicked {
+                            continue;
+                        }
+                        ctx.violate(prop, "update-outcome-differs-between-threads", &format!("{}/step-{at}", hs[*h].0.name()), || {
+                            format!("{}: the same update script left another record on thread {t} of {T} concurrent ones than sequentially, first at step {at}: {:?} vs {:?}", hs[*h].0.name(), trace.get(at), seq_scr[*h].get(at))
+                        }, || json!({"kind": "history", "kt": hs[*h].0.name(), "history": serde_json::to_value(&hs[*h].2).unwrap(), "note": "concurrent threads"}));
+                    }
+                }
+            }
+        }
+        // the sequential run of each script is the monitored one
+        for (kt, _, h) in &hs {
+            run_hist_kt(ctx, *kt, false, h, &crate::hist::RunOpts::default());
         }
     }
 }
